@@ -113,6 +113,28 @@ def run(res, ctx):
                         res.violation("findings differ between two channels of the same program",
                                       {"program": src, "a": {"channel": ref[2], "variant": ref[1], "findings": [list(x) for x in ref[0]]},
                                        "b": {"channel": chan, "variant": label, "findings": [list(x) for x in fs], "source_hex": raw.hex()}})
+        # ---- (1a) characters str.splitlines() breaks at but Python source does not (form feed, VT, FS/GS/RS, NEL, U+2028/9), before and between findings: findings AND
+        #      excerpts agree between file and stdin (seeded change C19-m12 cut stdin excerpts with splitlines: every excerpt below a form feed was shifted)
+        specials = ["import subprocess\n\x0c\ndef run(cmd):\n    return subprocess.call(cmd, shell=True)\n\x0c\nimport pickle\nassert run\n",
+                    "import os\ns = 'a\u2028b\u2029c'\nos.system(s)\nt = 'x\x0by\x1cz'  # \x85 note\nimport pickle\npickle.loads(t)\n",
+                    "# page\x0cbreak inside a comment\nimport telnetlib\n\n\n\nexec(code)\n"]
+        for sp_src in specials:
+            for n_ in ("1", "3", "5"):
+                outs = {}
+                for chan in ("file", "stdin"):
+                    if chan == "file":
+                        r = C.run_cli(["-f", "json", "-q", "-n", n_, scratch.fresh("prog.py", sp_src.encode("utf-8"))])
+                    else:
+                        r = C.run_cli(["-f", "json", "-q", "-n", n_, "-"], stdin_bytes=sp_src.encode("utf-8"))
+                    try:
+                        outs[chan] = sorted((x["test_id"], x["line_number"], x["col_offset"], x["code"]) for x in json.loads(r["out"])["results"])
+                    except Exception:
+                        outs[chan] = None
+                res.case(("separators", sp_src, n_), True)
+                res.count("separator-programs")
+                if outs["file"] is None or outs["stdin"] is None or outs["file"] != outs["stdin"]:
+                    res.violation("findings or code excerpts differ between file and stdin for a program containing form feed / U+2028-class characters",
+                                  {"program": sp_src, "context_lines": n_, "file": outs["file"], "stdin": outs["stdin"]})
         # ---- (1b) size: a program larger than a pipe buffer (64 KiB on Linux), with findings in its first and in its LAST lines, piped on stdin (a real pipe
         #      with a writer that delivers it in pieces) and scanned from a file (seeded change C19-m7 capped the unbuffered stdin read: one read(2) returned
         #      what the pipe held, the rest of the program was never scanned)
